@@ -181,7 +181,7 @@ def model_spec(draw, cfg=None):
         names = draw(st.permutations(names))
         ntypes[f"nt{ti}"] = {"ops": list(names), "ov": {}}
     # nodes
-    n_nodes = draw(st.integers(1, cfg.get("max_nodes", 6)))
+    n_nodes = draw(st.integers(cfg.get("min_nodes", 1), cfg.get("max_nodes", 6)))
     depth = draw(st.sampled_from(cfg.get("depths", [0, 0, 0, 1, 1, 2])))
     base_types = list(ntypes)
     nodes = []
@@ -232,7 +232,7 @@ def model_spec(draw, cfg=None):
                 sources.append(f"{p}/{o}/{n}")
     edges = []
     if targets and sources:
-        n_edges = draw(st.integers(0, cfg.get("max_edges", 8)))
+        n_edges = draw(st.integers(cfg.get("min_edges", 0), cfg.get("max_edges", 8)))
         wst = st.sampled_from([1.0, 2.0, -1.5, 0.5, 3.0, -0.75, 0.3, -2.0, 1.25, 5.0])
         for _ in range(n_edges):
             c = draw(st.integers(0, 9))
